@@ -16,6 +16,10 @@ RULE = (
     "with matching / non-matching / None values). Observed on the real container: list(of_type(t)), "
     "get_*_of_type(t, **filter) (shape None / element / list), iteration and len() after the getter, iteration and len() after "
     "remove_*_of_type. Compared with the Lean model and with Spec.C08.holds on the abstract list. "
+    "Overlapping queries: before the removal, a schedule of 2-5 read-only queries on the SAME container (plain iteration, "
+    "of_type of the requested or of another type, the filtered getter, len()) is advanced one step at a time in a generated "
+    "interleaving (nested loops, zip of two iterations, a getter or len() inside a loop, iterators created up front or on first use), "
+    "each query's own result compared with what the model gives for that query alone (fixed patterns on the exhaustive part, 60% of the random cases). "
     "Exhaustive part: all containers of <=4 elements x 3 classes x 2 attribute values x all types x filters. "
     "non-trivial = at least one member is an instance of the requested type; distinct by full case."
 )
@@ -65,6 +69,95 @@ def capped_iter(c, fuel):
         except StopIteration:
             break
     return out
+
+
+def _shape(ident, g):
+    if g is None:
+        return {"shape": "none"}
+    if isinstance(g, list):
+        return {"shape": "many", "xs": [oid(ident, x) for x in g]}
+    return {"shape": "one", "x": oid(ident, g)}
+
+
+def run_overlap(ov, c, classes, ident, fuel, get):
+    """threads: ["iter"] | ["of_type", class index (out of range = foreign)] | ["get"] | ["len"];
+    sched: thread indices, each entry advances that query by one step (an iteration by one next(),
+    a call is made in its single step); afterwards every query is run to its end, in thread order.
+    eager: the iterators are all created before the first step (otherwise each on its first step)."""
+    threads = ov["threads"]
+    its, res, done = {}, [None] * len(threads), [False] * len(threads)
+
+    def make(k):
+        th = threads[k]
+        if th[0] == "iter":
+            its[k] = iter(c)
+            res[k] = []
+        elif th[0] == "of_type":
+            its[k] = c.of_type(classes[th[1]] if th[1] < len(classes) else str)
+            res[k] = []
+
+    def step(k):
+        if done[k]:
+            return
+        th = threads[k]
+        if th[0] == "get":
+            res[k], done[k] = _shape(ident, get()), True
+        elif th[0] == "len":
+            res[k], done[k] = len(c), True
+        else:
+            if k not in its:
+                make(k)
+            if len(res[k]) > fuel:
+                done[k] = True
+                return
+            try:
+                res[k].append(oid(ident, next(its[k])))
+            except StopIteration:
+                done[k] = True
+
+    if ov.get("eager"):
+        for k in range(len(threads)):
+            make(k)
+    for k in ov["sched"]:
+        if 0 <= k < len(threads):
+            step(k)
+    for k in range(len(threads)):
+        while not done[k]:
+            step(k)
+    return res
+
+
+def overlap_expected(case, exp):
+    """what each query of the overlap answers on its own, from the model's expected observation"""
+    parents, members = case["parents"], exp["iter_after_get"]
+
+    def sub(c, t):
+        while c is not None:
+            if c == t:
+                return True
+            c = parents[c]
+        return False
+
+    out = []
+    for th in case["overlap"]["threads"]:
+        if th[0] == "iter":
+            out.append(members)
+        elif th[0] == "of_type":
+            if th[1] == case["type"]:
+                out.append(exp["of_type"])
+            else:
+                out.append([i for i in members if th[1] < len(parents) and sub(case["elems"][i][0], th[1])])
+        elif th[0] == "get":
+            out.append(exp["get"])
+        else:
+            out.append(exp["len_after_get"])
+    return out
+
+
+def _thread_name(case, th):
+    if th[0] == "of_type":
+        return f"of_type(K{th[1]})" if th[1] < len(case["parents"]) else "of_type(foreign)"
+    return {"iter": "iter(container)", "get": "the filtered getter", "len": "len(container)"}[th[0]]
 
 
 def run_impl(case):
@@ -120,6 +213,10 @@ def run_impl(case):
             out["get"] = {"shape": "one", "x": oid(ident, g)}
         out["iter_after_get"] = [oid(ident, x) for x in capped_iter(c, fuel)]
         out["len_after_get"] = len(c) if len(out["iter_after_get"]) < fuel else fuel
+        # several read-only queries on the same container in progress at once, advanced in the
+        # interleaving the case gives: each of them must answer as if it ran alone
+        if case.get("overlap") and len(out["iter_after_get"]) < fuel:
+            out["overlap"] = run_overlap(case["overlap"], c, classes, ident, fuel, lambda: getattr(c, getter)(t, **kwargs))
         getattr(c, remover)(t, **kwargs)
         out["iter_after_remove"] = [oid(ident, x) for x in capped_iter(c, fuel)]
         out["len_after_remove"] = len(c) if len(out["iter_after_remove"]) < fuel else fuel
@@ -195,6 +292,15 @@ def judge(case, obs, resp):
         exp = resp["expected"]
         bad = [k for k in exp if exp[k] != obs.get(k)]
         return {"status": "oracle", "why": f"{bad} differ from the list semantics on container {resp['spec_list']}: got { {k: obs.get(k) for k in bad} } expected { {k: exp[k] for k in bad} }"}
+    if "overlap" in obs:
+        want = overlap_expected(case, resp["expected"])
+        bad = [k for k in range(len(want)) if obs["overlap"][k] != want[k]]
+        if bad:
+            ths = case["overlap"]["threads"]
+            k = bad[0]
+            return {"status": "oracle", "why": f"overlapping read-only queries {[_thread_name(case, x) for x in ths]} advanced in the order {case['overlap']['sched']}"
+                    f"{' (iterators created up front)' if case['overlap'].get('eager') else ''} on container {resp['spec_list']}: query {k} = {_thread_name(case, ths[k])} "
+                    f"gave {obs['overlap'][k]}, alone it gives {want[k]}" + (f" ({len(bad) - 1} more queries differ)" if len(bad) > 1 else "")}
     if not resp["agree"]:
         return {"status": "corr", "why": "model/implementation disagree"}
     return {"status": "ok", "why": ""}
@@ -232,6 +338,12 @@ def features(case, obs):
         f.append("foreign_type")
     if any(v is None for _, v in case["filter"]):
         f.append("none_filter_value")
+    ov = case.get("overlap")
+    if ov:
+        f.append(f"overlap_queries={len(ov['threads'])}")
+        f.append("overlap_kinds=" + "+".join(sorted({th[0] for th in ov["threads"]})))
+        if isinstance(obs, dict) and "overlap" in obs and len(set(ov["sched"])) > 1:
+            f.append("overlap_interleaved")
     return f
 
 
@@ -255,8 +367,61 @@ print(c08.run_impl(case))
 PARENT_TABLES = [[None, 0, None], [None, None], [None, 0, 1, None], [None, 0, 0]]
 
 
+def overlap_pattern(k, n, t):
+    """fixed interleavings of read-only queries for the exhaustive part (n members, requested type t)"""
+    t2 = (t + 1) % 3
+    k %= 8
+    if k == 0:
+        return None
+    if k == 1:  # for x in of_type(t): getter(...)
+        return {"threads": [["of_type", t], ["get"], ["get"]], "sched": [0, 1, 0, 2], "eager": False}
+    if k == 2:  # zip(of_type(t), of_type(t2))
+        return {"threads": [["of_type", t], ["of_type", t2]], "sched": [0, 1] * (n + 1), "eager": False}
+    if k == 3:  # a plain loop, a typed loop and len() in turn
+        return {"threads": [["iter"], ["of_type", t], ["len"]], "sched": [0, 1, 2, 0, 1], "eager": True}
+    if k == 4:  # for x in of_type(t): for y in container: ...
+        sched = []
+        for j in range(min(n, 3)):
+            sched += [0] + [j + 1] * (n + 1)
+        return {"threads": [["of_type", t]] + [["iter"]] * min(n, 3), "sched": sched, "eager": False}
+    if k == 5:  # the getter while a plain iteration is paused
+        return {"threads": [["iter"], ["get"]], "sched": [0, 1], "eager": False}
+    if k == 6:  # two plain iterations created up front
+        return {"threads": [["iter"], ["iter"]], "sched": [0, 1, 1, 0], "eager": True}
+    # for x in container: of_type(t2) in full
+    return {"threads": [["iter"], ["of_type", t2], ["of_type", t]], "sched": [0] + [1] * (n + 1) + [0] + [2] * (n + 1), "eager": False}
+
+
+def random_overlap(rng: random.Random, nclasses, t, nmembers):
+    nth = rng.randrange(2, 6)
+    threads = []
+    for _ in range(nth):
+        r = rng.random()
+        if r < 0.3:
+            threads.append(["iter"])
+        elif r < 0.5:
+            threads.append(["of_type", t])
+        elif r < 0.7:
+            threads.append(["of_type", rng.randrange(nclasses + 1)])
+        elif r < 0.9:
+            threads.append(["get"])
+        else:
+            threads.append(["len"])
+    if rng.random() < 0.5:
+        # nested loops: one step of an outer query, then an inner one run for a while
+        sched = []
+        outer = rng.randrange(nth)
+        for k in range(nth):
+            if k != outer:
+                sched += [outer] + [k] * rng.randrange(1, nmembers + 3)
+    else:
+        sched = [rng.randrange(nth) for _ in range(rng.randrange(1, 2 * nmembers + 4))]
+    return {"threads": threads, "sched": sched, "eager": rng.random() < 0.3}
+
+
 def exhaustive_cases(family, maxn):
     parents = [None, 0, None]  # K1 is a subclass of K0, K2 unrelated
+    count = 0
     for n in range(1, maxn + 1):
         ops = [["append", i] for i in range(1, n)]
         for classes in itertools.product(range(3), repeat=n):
@@ -264,7 +429,12 @@ def exhaustive_cases(family, maxn):
                 elems = [[classes[i], [vals[i], 0, None]] for i in range(n)]
                 for t in range(4):  # 3 = foreign
                     for flt in ([], [[0, 0]], [[0, 1]], [[0, None]], [[0, 0], [1, 0]], [[2, 5]]):
-                        yield {"family": family, "parents": parents, "elems": elems, "ops": ops, "type": t, "filter": flt}
+                        case = {"family": family, "parents": parents, "elems": elems, "ops": ops, "type": t, "filter": flt}
+                        ov = overlap_pattern(count, n, t)
+                        count += 1
+                        if ov:
+                            case["overlap"] = ov
+                        yield case
 
 
 def random_case(rng: random.Random, family):
@@ -291,7 +461,10 @@ def random_case(rng: random.Random, family):
         else:
             v = rng.randrange(nvals + 1)
         flt.append([k, v])
-    return {"family": family, "parents": parents, "elems": elems, "ops": h["ops"], "type": t, "filter": flt, "plain_attr": rng.random() < 0.3}
+    case = {"family": family, "parents": parents, "elems": elems, "ops": h["ops"], "type": t, "filter": flt, "plain_attr": rng.random() < 0.3}
+    if rng.random() < 0.6:
+        case["overlap"] = random_overlap(rng, len(parents), t, len(_member_ids(case)))
+    return case
 
 
 def corpus_cases():
@@ -337,9 +510,28 @@ def cases_of(chunk):
 
 def shrinks(case):
     ops = case["ops"]
+    ov = case.get("overlap")
+    # coarse steps first (a batch of candidates is evaluated together, the first that still fails is kept)
+    if len(ops) > 3:
+        for keep in (ops[:1], ops[: len(ops) // 2], ops[len(ops) // 2 :]):
+            yield {**case, "ops": keep}
+    if ov and len(ov["sched"]) > 3:
+        sc = ov["sched"]
+        for keep in (sc[:2], sc[: len(sc) // 2], sc[len(sc) // 2 :]):
+            yield {**case, "overlap": {**ov, "sched": keep}}
     for i in range(len(ops)):
         yield {**case, "ops": ops[:i] + ops[i + 1 :]}
     for i in range(len(case["filter"])):
         yield {**case, "filter": case["filter"][:i] + case["filter"][i + 1 :]}
     if case["parents"] != [None, 0, None] and all(e[0] < 3 for e in case["elems"]) and case["type"] <= 3:
         yield {**case, "parents": [None, 0, None]}
+    if ov:
+        yield {k: v for k, v in case.items() if k != "overlap"}
+        sched, ths = ov["sched"], ov["threads"]
+        for i in range(len(ths)):
+            if len(ths) > 1:
+                yield {**case, "overlap": {**ov, "threads": ths[:i] + ths[i + 1 :], "sched": [k - (k > i) for k in sched if k != i]}}
+        for i in range(len(sched)):
+            yield {**case, "overlap": {**ov, "sched": sched[:i] + sched[i + 1 :]}}
+        if ov.get("eager"):
+            yield {**case, "overlap": {**ov, "eager": False}}
